@@ -85,7 +85,9 @@ def binders(inner, tag):
     mixed = lst('X' + tag, [obj('XI' + tag, n=plain('in-' + tag)), plain('just-text-' + tag), obj('XJ' + tag, n=plain('in2-' + tag)),
                             plain('tail-' + tag)])
     f = fn('FC' + tag, plain('ifcache-' + tag))
-    ns = {'o' + tag: o, 'l' + tag: items, 'ml' + tag: mitems, 'fc' + tag: f, 'src' + tag: plain('let-' + tag), 'mx' + tag: mixed}
+    ns = {'o' + tag: o, 'l' + tag: items, 'ml' + tag: mitems, 'fc' + tag: f, 'src' + tag: plain('let-' + tag), 'mx' + tag: mixed,
+          # mappings handed to dtml-with ... mapping: one that computes its values on demand (and has no length), an empty one
+          'cm' + tag: cmap('CM' + tag, n=plain('cmap-' + tag), decoy=plain('dcm-' + tag)), 'em' + tag: mp('EM' + tag)}
     mid = [T('(' + tag + ':'), V('n')] + inner + [V('n'), T(')')]
     blocks = [
         With(N('o' + tag), mid),
@@ -99,6 +101,8 @@ def binders(inner, tag):
         # if caches the *called* value of its named condition for the body
         If([(N('fc' + tag), [T('(if' + tag + ':'), V('fc' + tag)] + inner + [V('fc' + tag), T(')')])]),
         With(N('o' + tag), mid, only=True),
+        With(X('cm' + tag), mid, mapping=True),
+        With(X('em' + tag), mid, mapping=True),
     ]
     return blocks, ns
 
